@@ -107,9 +107,9 @@ def bounded(tier, seed):
             continue
         admit = ADMIT.get(kind, lambda fr: True)
         if kind == "MemoryCache":
-            qs = allq[:: (8 if tier == "quick" else 1)]
+            qs = allq[:: (8 if tier == "quick" else 2)]
         else:
-            k = 15 if tier == "quick" else 400
+            k = 15 if tier == "quick" else 200
             qs = rnd.sample(allq, min(k, len(allq)))
         qs = SPECIAL + qs
         n0 = col.evaluations
@@ -118,7 +118,7 @@ def bounded(tier, seed):
         standins.append(M.standin("%s: reuse of cached results" % kind,
                                   "%d successful non-volatile queries (22 hand-picked incl. attribute/namespace/spelling cases + %s of all_queries(%s)), "
                                   "each: cold, repeat, up to 8 extensions of its two longest prefixes" % (len(qs), "a stride" if kind == "MemoryCache" else "a seeded sample", tier),
-                                  col.evaluations - n0, kind == "MemoryCache" and tier != "quick"))
+                                  col.evaluations - n0, False))
     return dict(evaluations=col.evaluations, distinct_nontrivial=len(col.nontrivial),
                 rule="per cache kind (fresh cache per query, configured as the global cache): evaluate q, check contains/get of the canonical key "
                      "when the kind's condition admits the result, evaluate q again (no command may run), evaluate extensions of its prefixes; the "
